@@ -18,14 +18,15 @@ DRIVE_TYPES = ["document", "presentation", "spreadsheets"]
 
 def is_amp_url(url):
     splitted = safe_urlsplit(url)
+    hostname = splitted.hostname or ""
 
-    if splitted.hostname.endswith(".ampproject.org"):
+    if hostname.endswith(".ampproject.org"):
         return True
 
-    if splitted.hostname.startswith("amp-"):
+    if hostname.startswith("amp-"):
         return True
 
-    if splitted.hostname.startswith("amp."):
+    if hostname.startswith("amp."):
         return True
 
     if "/amp/" in splitted.path:
